@@ -172,7 +172,13 @@ impl M {
         sh.eof_at_start.store(eof0, Ordering::SeqCst);
         sh.events_at_start.store(ev0, Ordering::SeqCst);
         sh.active.store(true, Ordering::SeqCst);
-        let res = guarded(|| gather_fibex_data(FibexConfig { fibex_file_paths: paths.clone() }).is_some());
+        let res = guarded(|| {
+            let m = gather_fibex_data(FibexConfig { fibex_file_paths: paths.clone() });
+            // what comes back must be usable: every string of a returned model holds valid UTF-8
+            (m.is_some(), m.as_ref().and_then(invalid_string_in_model))
+        });
+        let invalid_str = res.as_ref().ok().and_then(|r| r.1.clone());
+        let res = res.map(|r| r.0);
         sh.active.store(false, Ordering::SeqCst);
         let eof = dlt_core::verif_hooks::FIBEX_EOF_RETURNS.load(Ordering::Relaxed) - eof0;
         let ev = dlt_core::verif_hooks::FIBEX_XML_EVENTS.load(Ordering::Relaxed) - ev0;
@@ -189,6 +195,10 @@ impl M {
         if let Err(p) = res {
             let text = doc.map(|d| trunc(&String::from_utf8_lossy(d), 6000));
             ctx.panic_violation("load.no_panic", &p, || J::obj().set("damage", label).set("context", ctx_label).set("document", text).set("paths", paths.join(",")));
+        }
+        if let Some(place) = invalid_str {
+            let text = doc.map(|d| trunc(&String::from_utf8_lossy(d), 6000));
+            ctx.violation("load.model_strings_valid_utf8", &place, || J::obj().set("damage", label).set("context", ctx_label).set("document", text).set("where", place.clone()));
         }
         if eof > EOF_BOUND {
             // finished, but only after being handed end-of-file absurdly often
